@@ -1,6 +1,6 @@
 --------------------------- MODULE Trace_Vectorise ---------------------------
 (* (C) batch validation of vectorisePositions / blur / toRelativeGenomicPositions / selectPeaks results   *)
-(* recorded from the REAL functions:  {"kind": "vec"|"seq"|"blur"|"bin"|"sel", "vin": {...}, "obs": ...}        *)
+(* recorded from the REAL functions:  {"kind": "vec"|"seq"|"blur"|"bin"|"sel"|"cpk", "vin": {...}, "obs": ...}        *)
 (* "seq" = OpticalMap.getSequence(SequenceGenerator(res, r), rev, start, end): vin carries r and rev as well        *)
 EXTENDS Vectorise, Json, IOUtils, SequencesExt
 
@@ -16,6 +16,7 @@ BinStep == pc = "bin" /\ out' = ToRel(FloorDiv(vin.x - vin.start, vin.res), vin.
 SeqStep == pc = "done" /\ kind = "seq"
            /\ out' = (IF vin.rev THEN Reverse(BlurImpl(out, vin.r)) ELSE BlurImpl(out, vin.r))
            /\ pc' = "done2" /\ UNCHANGED <<vin, ws, k>>
+CpkStep == pc = "cpk" /\ out' = SelectImpl(vin.scores, vin.count) /\ pc' = "done" /\ UNCHANGED <<vin, ws, k>>
 SelStep == pc = "sel" /\ out' = SelectImpl(vin.scores, vin.count) /\ pc' = "done" /\ UNCHANGED <<vin, ws, k>>
 Verdict ==
     LET obs == Traces[t].obs
@@ -24,9 +25,12 @@ Verdict ==
                     [] kind = "blur" -> C16_Blur_Failed(vin.v, vin.r, obs)
                     [] kind = "bin"  -> C16_Bin_Failed(vin.x, vin.res, vin.start, obs)
                     [] kind = "sel"  -> C16_Sel_Failed(vin.scores, vin.count, obs)
-        drift == IF out = obs THEN {} ELSE {"result_differs_from_spec"}
+                    [] kind = "cpk"  -> C16_Keep_Failed(vin.scores, vin.count, obs)
+        drift == IF kind = "cpk"
+                 THEN (IF HeightBag(vin.scores, out) = HeightBag(vin.scores, obs) THEN {} ELSE {"kept_heights_differ_from_spec"})
+                 ELSE IF out = obs THEN {} ELSE {"result_differs_from_spec"}
     IN IF failed \cup drift = {} THEN TRUE ELSE PrintT(ToString(<<"V", t, failed, drift>>))
 Report == pc = (IF kind = "seq" THEN "done2" ELSE "done") /\ Verdict /\ pc' = "reported" /\ UNCHANGED <<vin, ws, k, out, t, kind>>
 Terminated == pc = "reported" /\ UNCHANGED <<vvars, t, kind>>
-Next == ((VecNext \/ SeqStep \/ BlurStep \/ BinStep \/ SelStep) /\ UNCHANGED <<t, kind>>) \/ Report \/ Terminated
+Next == ((VecNext \/ SeqStep \/ BlurStep \/ BinStep \/ SelStep \/ CpkStep) /\ UNCHANGED <<t, kind>>) \/ Report \/ Terminated
 =============================================================================
